@@ -51,8 +51,60 @@ PARAM_TICK = [0]
 FORCED = {"use": 0.2, "use-group": 0.5, "glob": 0.6, "as": 0.7, "use-reexport": 0.8, "qualified-in-generic": 0.9}
 
 
-def make_workspace(rng, ncrates, force=None, names=None):
-    """`names`: None (ASCII crate names from CRATES, ASCII type words) or a function ncrates -> (crate names, 3 * ncrates type names)
+# ----------------------------------------------------------------------------- field-level type overrides
+# what a member may be written as instead of its Rust type, per language (none of the texts contains a generated type name)
+OVERRIDE_TEXT = {"swift": ["Date", "Decimal", "UInt64"], "kotlin": ["java.time.Instant", "java.math.BigDecimal", "ULong"],
+                 "typescript": ["Date", "string", "Record<string, unknown>", "bigint"], "scala": ["java.time.Instant", "BigDecimal"],
+                 "go": ["time.Time", "uint64"], "python": ["datetime", "Decimal"]}
+OVERRIDE_TICK = [0]
+
+
+def overridden_member(rng, f, oc, w, alone):
+    """Appends to the file `f` an item with one member of the cross-crate type `w` that carries field-level decorators:
+    `#[typeshare(<lang>(type = ".."))]` for one to three of the six languages (or for none: `typescript(readonly)` alone, which
+    overrides nothing), in one attribute or in one attribute per language, `readonly` inside or beside the TypeScript override;
+    the member is a field of a struct or of a struct variant, first / last / between plain members, its type `w` alone or
+    wrapped (Option, Vec, map value).  Returns the item's name and a description."""
+    OVERRIDE_TICK[0] += 1
+    t = OVERRIDE_TICK[0]
+    # which languages override: the import-writing ones and the others come round regularly
+    pick = [["swift"], ["kotlin"], ["typescript"], ["swift", "scala"], [], ["go", "python"], ["swift", "kotlin"], ["typescript", "swift"],
+            ["scala"], ["kotlin", "typescript", "swift"], ["python"], ["go"]]
+    langs = list(pick[t % len(pick)]) if rng.random() < 0.75 else rng.sample(sorted(OVERRIDE_TEXT), rng.randint(1, 3))
+    readonly = not langs or rng.random() < 0.3
+    texts = {L: rng.choice(OVERRIDE_TEXT[L]) for L in langs}
+    lists = []
+    for L in langs:
+        args = [m_nv("type", lit_s(texts[L]))]
+        if L == "typescript" and readonly:
+            args.insert(rng.randint(0, 1), m_path("readonly"))
+        lists.append(m_list(L, args))
+    if readonly and "typescript" not in langs:
+        lists.append(m_list("typescript", [m_path("readonly")]))
+    rng.shuffle(lists)
+    attrs = [m_list("typeshare", lists)] if len(lists) == 1 or rng.random() < 0.5 else [m_list("typeshare", [l]) for l in lists]
+    shape_name, shape = rng.choice([("plain", t_path(w))] * 3 + [("Option", t_path("Option", [t_path(w)])), ("Vec", t_path("Vec", [t_path(w)])),
+                                                                  ("map value", t_path("HashMap", [t_path("String"), t_path(w)]))])
+    members = [field([], "seq", t_path("u32")), field([], "note", t_path("String"))][:rng.randint(0, 2)]
+    members.insert(rng.randint(0, len(members)), field(attrs, "held", shape))
+    k = len(f["items"])
+    name = "Over%d%s" % (k, w)
+    where = "struct" if t % 2 else "struct variant"
+    if where == "struct":
+        f["items"].append({"kind": "struct", "attrs": [m_path("typeshare")], "ident": name, "generics": [], "fields": ("named", members)})
+    else:
+        variants = [{"attrs": [], "ident": "Filled", "fields": ("named", members)}, {"attrs": [], "ident": "Blank", "fields": ("unit",)}]
+        rng.shuffle(variants)
+        f["items"].append({"kind": "enum", "attrs": [m_path("typeshare"), m_list("serde", [m_nv("tag", lit_s("type")), m_nv("content", lit_s("content"))])],
+                           "ident": name, "generics": [], "variants": variants})
+    return name, dict(item=name, where=where, langs=sorted(langs), texts=texts, readonly=readonly, shape=shape_name, alone=alone,
+                      attributes="".join(render_attr_any(a) for a in attrs).strip())
+
+
+def make_workspace(rng, ncrates, force=None, names=None, overrides=False):
+    """`overrides`: every cross-crate type gets, in the file that refers to it, one member with field-level type overrides
+    (`overridden_member`) - as the only mention of the type in that file, or next to the mentions the generator / the holder make.
+    `names`: None (ASCII crate names from CRATES, ASCII type words) or a function ncrates -> (crate names, 3 * ncrates type names)
     (the Unicode part draws both from alphabets with non-ASCII first and inner letters)"""
     if names:
         crates, words = names(ncrates)
@@ -67,9 +119,11 @@ def make_workspace(rng, ncrates, force=None, names=None):
     for c in crates:
         # a directory name with a dot cannot be written as a crate path in a `use` item: such crates are never referred to
         others = [(oc, w) for oc in crates if oc != c and "." not in oc for w in owned[oc]]
-        ext = rng.sample(others, min(len(others), rng.randint(1 if force else 0, 2)))
+        ext = rng.sample(others, min(len(others), rng.randint(1 if force or overrides else 0, 2)))
         mine = owned[c]
-        f = g.file(names=mine, extern_types=[w for _, w in ext])
+        # overrides: the types whose overridden member is to be the only mention in this file are kept from the generator
+        alone = {w for _, w in ext if rng.random() < 0.6} if overrides else set()
+        f = g.file(names=mine, extern_types=[w for _, w in ext if w not in alone])
         style, written = {}, {}          # written: the crate name the source names the type's crate by (a re-export: a third crate)
         for oc, w in ext:
             # every reference style comes round regularly (a rotating counter, jittered), whatever the other random choices were
@@ -118,6 +172,7 @@ def make_workspace(rng, ncrates, force=None, names=None):
                 f["items"].append({"kind": "struct", "attrs": [m_path("typeshare")], "ident": "QualUser%d" % k, "generics": [],
                                    "fields": ("named", [field([], "q", t_path(lw, [t_path(w, quals=[ocn])], quals=["crate"]))])})
                 mine = mine + [lw, "QualUser%d" % k]
+                alone.discard(w)          # this style is itself a mention outside the `use` items
                 style[w] = "qualified-in-generic"
             else:
                 style[w] = "none"
@@ -125,7 +180,7 @@ def make_workspace(rng, ncrates, force=None, names=None):
         # struct mentions it once only, in a random position (alone, wrapped, or as the first of two generic arguments)
         body = "\n".join(l for l in render_file(f).split("\n") if not l.lstrip().startswith("use "))
         for j, (oc, w) in enumerate(ext):
-            if style.get(w) in ("qualified-in-generic", "none") or re.search(r"\b%s\b" % re.escape(w), body):
+            if style.get(w) in ("qualified-in-generic", "none") or w in alone or re.search(r"\b%s\b" % re.escape(w), body):
                 continue
             shape = rng.choice([t_path(w), t_path("Vec", [t_path(w)]), t_path("HashMap", [t_path(w), t_path("u8")]),
                                 t_path("HashMap", [t_path(w), t_path("Vec", [t_path("String")])]),
@@ -139,21 +194,26 @@ def make_workspace(rng, ncrates, force=None, names=None):
         PARAM_TICK[0] += 1
         if ext and (force or PARAM_TICK[0] % 3 == 0):
             oc, w = ext[PARAM_TICK[0] % len(ext)]
-            if style.get(w) in ("use", "use-group", "as", "glob", "use-reexport"):
+            if style.get(w) in ("use", "use-group", "as", "glob", "use-reexport") and w not in alone:
                 k = len(f["items"])
                 f["items"].append({"kind": "struct", "attrs": [m_path("typeshare")], "ident": "Page%d" % k, "generics": [("ty", w)],
                                    "fields": ("named", [field([], "items", t_path("Vec", [t_path(w)])), field([], "total", t_path("u32"))])})
                 mine = mine + ["Page%d" % k]
+        over = {}
+        if overrides:
+            for oc, w in ext:
+                nm, over[w] = overridden_member(rng, f, oc, w, w in alone)
+                mine = mine + [nm]
         sub = rng.choice(["", "models/", "a/b/"])
         # the crate is the directory above the *last* `src` component: some crates live under another crate's `src`
         top = c if rng.random() < 0.75 else "outer%d/src/%s" % (len(files), c)
-        files.append(dict(crate=c, rel="%s/src/%slib.rs" % (top, sub), file=f, owned=mine, ext=ext, style=style, written=written))
+        files.append(dict(crate=c, rel="%s/src/%slib.rs" % (top, sub), file=f, owned=mine, ext=ext, style=style, written=written, over=over))
         imports_truth[c] = ext
     if CONST_CRATE[0]:
         # a crate whose only shared items are constants (the back ends that write constants give it a module of its own)
         cf = {"attrs": [], "items": [{"kind": "const", "attrs": [m_path("typeshare")], "ident": nm, "ty": t_path(ty), "expr_text": ex, "init": init}
                                      for nm, ty, ex, init in (("MAX_FRAME_BYTES", "u32", "65536", ("i", 65536, "")), ("MAX_NAME_LEN", "u8", "64", ("i", 64, "")))]}
-        files.append(dict(crate="wire-limits", rel="wire-limits/src/lib.rs", file=cf, owned=[], ext=[], style={}, written={}))
+        files.append(dict(crate="wire-limits", rel="wire-limits/src/lib.rs", file=cf, owned=[], ext=[], style={}, written={}, over={}))
         crates = crates + ["wire-limits"]
     return crates, files, g
 
@@ -535,14 +595,45 @@ def input_naming_part(check):
     return False
 
 
-def workspace_case(check, w, lang, force, ncr, draw_names=None, label="", naming=None):
+def field_override_part(check):
+    """Dimension: *field-level type overrides* on members whose type comes from another crate (the generator of the other parts
+    writes no field decorators).  Workspaces as in the main loop (2-5 crates, reference styles `use`, grouped `use`, glob, `use … as`,
+    re-export, qualified path; nested crates, roots below `src`), and for every cross-crate type the referring file has one more
+    item with a member of that type - a field of a struct or of a struct variant, plain or inside Option / Vec / a map, first,
+    last or between plain members - that carries `#[typeshare(<lang>(type = ".."))]` for one to three of swift, kotlin,
+    typescript, scala, go, python (one attribute or one per language), with or without `readonly`, or `typescript(readonly)`
+    alone (no override at all); this member is the only mention of the type in the file, or stands next to the mentions the
+    generator and the holder structs make.  Folder output for TypeScript and Kotlin mostly, the other four languages now and then.
+    Demands C14's oracles on the files the binary wrote, the import clause judged per generated language on that output: a type
+    whose name is written in a module (the member is not overridden *for this language*, or something else mentions the type)
+    and which another generated module defines is imported from that module; a member overridden for the generated language is
+    written with the override text and demands nothing; every import names a type its module defines; definitions as in
+    single-file mode, in the owner's file.  Then the model on the same workspace, byte for byte.  The first workspaces are one
+    per (TypeScript / Kotlin, reference style)."""
+    rng = check.rng
+    rounds, nws = (3, 150) if check.thorough else (1, 22)
+    forced = [(L, st) for st in ("use", "use-group", "glob", "use-reexport") for L in ("typescript", "kotlin")] * rounds
+    for w in range(-len(forced), nws):
+        if w < 0:
+            lang, force = forced[w]
+            ncr = rng.randint(3, 4)
+        else:
+            lang, force = (["typescript", "kotlin"] * 3 + LANGS)[w % 12], None
+            ncr = rng.randint(2, 5)
+        # w * 3 + 1: no constants-only crate here (the main loop has it)
+        if workspace_case(check, w * 3 + 1, lang, force, ncr, label="field type overrides: ", overrides=True):
+            return True
+    return False
+
+
+def workspace_case(check, w, lang, force, ncr, draw_names=None, label="", naming=None, overrides=False):
     """one generated workspace through the real binary (-d and -o) and the model; all of C14's oracles.  Returns True when a
     violation was reported (the caller stops).  `naming`: None (the absolute path of the workspace root is the only input, the
     working directory is its parent) or a function (rng, scratch, root, files) -> invocation (see `name_inputs`): which
     directories / files are named on the command line, how they are spelled and from which working directory."""
     rng = check.rng
     CONST_CRATE[0] = lang in ("typescript", "go", "python") and w % 3 == 0
-    crates, files, g = make_workspace(rng, ncr, force, draw_names)
+    crates, files, g = make_workspace(rng, ncr, force, draw_names, overrides=overrides)
     if CONST_CRATE[0]:
         check.count("workspace-with-const-only-crate")
     # the workspace itself may be checked out below a directory called `src` (~/src/project/…)
@@ -639,6 +730,20 @@ def workspace_case(check, w, lang, force, ncr, draw_names=None, label="", naming
                     if oc not in named_crates:
                         continue          # the crate of that type is not among the inputs: no module to import from
                     used = re.search(r"[:<\[( |]%s\b" % re.escape(wname), text) is not None
+                    ov = f["over"].get(wname)
+                    if ov:
+                        # the expectation per generated language is read off the output: a member overridden for this language is
+                        # written with the override text (the type is then used only if something else mentions it), any other
+                        # member with the name of its Rust type - and then the import is demanded below like for any other use
+                        written = re.search(r"[:<\[( |]%s\b" % re.escape(wname), "\n".join(l for l in text.split("\n") if not l.startswith("import "))) is not None
+                        check.count("%soverridden member's type inside: %s" % (label, ov["shape"]))
+                        check.count("%smember of a %s overridden for %s, %s: type name %s outside the import lines, %s" % (
+                            label, ov["where"], "the generated language" + (" and others" if len(ov["langs"]) > 1 else "") if lang in ov["langs"]
+                            else "other languages only" if ov["langs"] else "no language (`readonly` alone)",
+                            "the only mention of the type" if ov["alone"] else "next to other mentions",
+                            "written" if written else "not written", "imported" if wname in imported else "not imported"))
+                        if ov["readonly"]:
+                            check.count(label + "member with `readonly`")
                     if draw_names and used and f["style"][wname] != "none":
                         check.count("%sreference: type initial %s, crate initial %s: %s" % (
                             label, initial_class(wname), initial_class(f["written"][wname]), "imported" if wname in imported else "not imported"))
@@ -676,6 +781,11 @@ def workspace_case(check, w, lang, force, ncr, draw_names=None, label="", naming
                         problem = "%s uses %s (defined in crate %s, written to %s; referenced by `%s`) without importing it; its import lines: %s" % (
                             file_name(lang, f["crate"]), wname, oc, file_name(lang, oc), st,
                             [l for l in text.split("\n") if l.startswith("import ") and "kotlinx" not in l] or "none")
+                        if ov:
+                            problem += "; %s is mentioned %s by the member `held` of the %s of `%s`, which carries `%s` (%s)" % (
+                                wname, "only" if ov["alone"] else "among others", ov["where"], ov["item"], ov["attributes"],
+                                "an override for %s, not for %s" % (", ".join(ov["langs"]), lang) if ov["langs"] and lang not in ov["langs"]
+                                else "no type override at all" if not ov["langs"] else "an override for " + ", ".join(ov["langs"]))
     if not problem and unnamed:
         # a source file that no input names (or lies above) contributes nothing
         named_words = {o for f in files + loose for o in f["owned"]}
@@ -743,7 +853,7 @@ def workspace_case(check, w, lang, force, ncr, draw_names=None, label="", naming
     if loose:
         return False
     ma = answers[-1]
-    if draw_names:
+    if draw_names or overrides:
         check.count("%smodel %s" % (label, "run on the same workspace" if "ok" in ma else "gives no text: %s" % json.dumps(l2.norm(ma))[:80]))
     if "ok" in ma:
         mtexts = {k: v for k, v in ma["ok"].items()}
@@ -777,7 +887,10 @@ def run(check):
                   "the crate directory, its src directory, a directory below src or the file itself, several inputs together, some crates "
                   "left out, spelled absolutely / relatively / with ./, trailing and doubled slashes, /./ and d/../d detours, from six "
                   "kinds of working directory - every file whose path as spelled has its crate directory above the last src must be in "
-                  "that crate's file, nothing else written, definitions as in single-file mode on the same inputs")
+                  "that crate's file, nothing else written, definitions as in single-file mode on the same inputs; the same with field-level "
+                  "type overrides (`typeshare(<lang>(type = ..))` for one to three languages, `readonly`) on struct fields and "
+                  "struct-variant members of a cross-crate type, as its only mention in the file or next to others: a type whose name "
+                  "the generated language writes is imported, whatever the other languages override")
     # the first workspaces are one per (import-writing language, reference style): three or four crates, every cross-crate
     # reference written in that style
     forced = [(L, st) for st in FORCED for L in ("typescript", "kotlin")] * 2      # twice: a workspace may fail to generate (unsupported types)
@@ -791,6 +904,8 @@ def run(check):
         if workspace_case(check, w, lang, force, ncr):
             return
     if unicode_names_part(check):
+        return
+    if field_override_part(check):
         return
     if input_naming_part(check):
         return
